@@ -37,6 +37,26 @@ pub fn benign(k: &str, n: usize) -> Vec<Value> {
     }
 }
 
+/// Every operator with every operand count it rejects (0..=4), bracketed, and - where one operand is rejected -
+/// the bracket-less spelling with a scalar, a string and an expression as the operand.
+pub fn illformed() -> Vec<Value> {
+    let mut out = Vec::new();
+    for k in OPS {
+        for n in 0..=4usize {
+            if !refmodel::arity_ok(k, n) {
+                out.push(op(k, benign(k, n)));
+            }
+        }
+        if !refmodel::arity_ok(k, 1) {
+            out.push(al::obj1(k, json!(5)));
+            out.push(al::obj1(k, json!("a")));
+            out.push(al::obj1(k, json!({"var": ""})));
+            out.push(al::obj1(k, json!(null)));
+        }
+    }
+    out
+}
+
 pub fn datas() -> Vec<Value> {
     vec![json!(null), json!({"a": 1}), json!([1, 2, 3])]
 }
@@ -105,6 +125,14 @@ pub fn run(ctx: &mut Ctx) {
                     bad.push(op(k, benign(k, n)));
                     c += 1;
                 }
+            }
+        }
+        // ... and the bracket-less spellings of a rejected single operand ({">": 5}), which no host may read as
+        // "compare the current element with 5" or the like
+        for k in OPS {
+            if !refmodel::arity_ok(k, 1) {
+                bad.push(al::obj1(k, json!(5)));
+                bad.push(al::obj1(k, json!({"var": ""})));
             }
         }
         for h in OPS {
